@@ -767,6 +767,15 @@ class _SubtypeDistanceVisitor(TypeVisitor[int | None]):
                 return None
             return sum(distances)  # type: ignore[arg-type]
 
+        if isinstance(self.subtype, UnionType):
+            # As for instances: it is sufficient that one element of the union fits.
+            distances = [
+                self.graph.subtype_distance(supertype, elem) for elem in self.subtype.items
+            ]
+            valid_distances = [dist for dist in distances if dist is not None]
+            if valid_distances:
+                return min(valid_distances)
+
         return None
 
     def visit_union_type(self, supertype: UnionType) -> int | None:
